@@ -430,6 +430,66 @@ pub fn gen_ops(rng: &mut Rng, c: &Consts, o: &GenOpts) -> Vec<WOp> {
     ops
 }
 
+/// A valid history with MANY files (tens to hundreds, so that file ids leave the range any small archive has)
+/// of which a few are LONG-LIVED: started early, appended to now and then while dozens of other files are
+/// started and ended, ended late. Pieces are tiny; the point is the id space and the interleaving distance.
+pub fn gen_many_files(rng: &mut Rng, n: usize, long_lived: usize, max_piece: usize) -> Vec<WOp> {
+    let mut ops = Vec::new();
+    let starts: Vec<usize> = (0..long_lived).map(|k| if k == 0 { 0 } else { rng.usize_below(n) }).collect();
+    let mut open: Vec<usize> = Vec::new();
+    let piece = |rng: &mut Rng| -> Data {
+        let n = if rng.chance(1, 6) { 0 } else { rng.range(1, max_piece.max(1) as u64) as usize };
+        Data::Period { n, p: rng.range(1, 250) as usize }
+    };
+    for i in 0..n {
+        if starts.contains(&i) {
+            ops.push(WOp::Start { f: i, name: Name::lit(&format!("L{i}")) });
+            open.push(i);
+            if rng.chance(1, 2) {
+                ops.push(WOp::Append { f: i, data: piece(rng), src: Src::exact() });
+            }
+        } else if rng.chance(1, 3) {
+            ops.push(WOp::Add { name: Name::lit(&format!("e{i}")), data: piece(rng), src: Src::exact() });
+        } else {
+            ops.push(WOp::Start { f: i, name: Name::lit(&format!("e{i}")) });
+            if rng.chance(2, 3) {
+                ops.push(WOp::Append { f: i, data: piece(rng), src: Src::exact() });
+            }
+            ops.push(WOp::End { f: i });
+        }
+        for k in 0..open.len() {
+            if rng.chance(1, 10) {
+                ops.push(WOp::Append { f: open[k], data: piece(rng), src: Src::exact() });
+            }
+        }
+        if open.len() > 1 && rng.chance(1, 50) {
+            let k = rng.usize_below(open.len());
+            ops.push(WOp::End { f: open.remove(k) });
+        }
+    }
+    for f in open {
+        if rng.chance(3, 4) {
+            ops.push(WOp::Append { f, data: piece(rng), src: Src::exact() });
+        }
+        ops.push(WOp::End { f });
+    }
+    ops.push(WOp::Finalize);
+    ops
+}
+
+/// Recipient counts one or two orders of magnitude above the usual 1..4 (the header then no longer fits a
+/// page, the key list no longer a small vector): with probability 1/den on an encrypted configuration.
+pub fn maybe_many_recipients(rng: &mut Rng, cfg: &mut ArcCfg, den: u64) {
+    if cfg.enc() && rng.chance(1, den) {
+        cfg.recipients = *rng.pick(&[17usize, 84, 85, 86, 128, 300, 1000]);
+        cfg.reader = match rng.below(3) {
+            0 => 0,
+            1 => cfg.recipients - 1,
+            _ => rng.usize_below(cfg.recipients),
+        };
+    }
+}
+
 pub fn gen_cfg(rng: &mut Rng, variant: &str, hooks: bool) -> ArcCfg {
     let layers = rng.below(4) as u8;
     let recipients = if layers & L_ENC != 0 { rng.range(1, 4) as usize } else { 0 };
